@@ -54,6 +54,8 @@ def gen_tone(rng):
     f = fch1 + (1 if asc else -1) * (k + frac) * cbw
     num_pols = rng.choice([1, 2, 2]); nbits = rng.choice([4, 8, 8]); nants = rng.choice([1, 1, 2])
     rows = rng.choice([2, 4, 6]) * I
+    if I > 1 and rng.random() < 0.4:
+        rows += rng.randint(1, I - 1)      # spectra that do not fill the last integration: the reducer must drop them from the END
     if (L * rows) % taps:
         rows *= taps            # samples per block must be a multiple of the taps (constructor assertion); matters for odd L
     spb = L * rows
